@@ -99,7 +99,11 @@ func TestC18Replicas(t *testing.T) {
 	var jobs []job
 	for _, p := range profiles {
 		for i := 0; i < perProfile; i++ {
-			jobs = append(jobs, job{p, 200 + i})
+			idx := 200 + i
+			if p == "slash" {
+				idx = 201 + i // odd indexes have a malicious consumer: the provider receives packets it rejects with error acknowledgements
+			}
+			jobs = append(jobs, job{p, idx})
 		}
 	}
 	var mu sync.Mutex
